@@ -49,12 +49,14 @@ theorem decAng_encAng (cx : Ctx) (a : Ang) (h : a ∈ cx.angs) : decAng cx (encA
     simp only [decAng]
     exact getD_pos a _ cx.angs h
 
-theorem ofRoute_toRoute (cx : Ctx) (g : Gate) (hn : handledName g.name = true ∨ g.name ∈ cx.names)
+theorem ofRoute_toRoute (cx : Ctx) (g : Gate) (hh : handledName g.name = false) (hn : g.name ∈ cx.names)
     (ha : g.arg ∈ cx.angs) : ofRoute cx (toRoute cx g) = g := by
   cases g with
   | mk n ts cs a =>
-    simp only [ofRoute, toRoute, Gate.mk.injEq, true_and]
-    exact ⟨decName_encName cx n hn, decAng_encAng cx a ha⟩
+    have hc : ¬ (n = .CNOT ∨ n = .CSIGN) := by
+      rintro (h | h) <;> (rw [h] at hh; cases hh)
+    simp only [ofRoute, toRoute, if_neg hc, Gate.mk.injEq, true_and]
+    exact ⟨decName_encName cx n (Or.inr hn), decAng_encAng cx a ha⟩
 
 theorem mem_ctx {gs : List Gate} {g : Gate} (hg : g ∈ gs) :
     g.name ∈ (ctxOf gs).names ∧ g.arg ∈ (ctxOf gs).angs :=
@@ -212,7 +214,7 @@ theorem routeGate_handled_out (cx : Ctx) (N : Nat) (setup : Route.Setup)
     cases hr
     have hS := fun p hp => (⟨(h2.swaps_ok p hp).1, (h2.swaps_ok p hp).2.1⟩ : p.1 < N ∧ p.2 < N)
     have hG : ofRoute cx ⟨(toRoute cx g).name, [], [p, q], (toRoute cx g).arg, 0⟩ = ⟨g.name, [p, q], [], g.arg⟩ := by
-      simp only [ofRoute, toRoute, hdec, decAng_encAng cx g.arg ha]
+      simp only [ofRoute, toRoute, if_neg hn, hdec, decAng_encAng cx g.arg ha]
     have hpq : p ≠ q ∧ p < N ∧ q < N ∧ Route.Adj setup N p q := by
       rcases h3 with ⟨rfl, rfl⟩ | ⟨rfl, rfl⟩
       · exact ⟨fun h => h01 (Route.track_inj h), Route.track_lt hS h0, Route.track_lt hS h1', h2.adj⟩
@@ -272,7 +274,7 @@ theorem routeStage_mem (N : Nat) (setup : Route.Setup) (hs : setup = .linear ∨
     cases ha
     simp only [List.mem_singleton] at hra
     subst hra
-    rw [ofRoute_toRoute _ g (Or.inr hnm) hang]
+    rw [ofRoute_toRoute _ g (by simpa using hh) hnm hang]
     exact Or.inl ⟨hg, by simpa using hh⟩
 
 /-- every input gate is routed into a part of the output -/
@@ -303,7 +305,7 @@ theorem routeStage_keeps_name (N : Nat) (setup : Route.Setup) (hs : setup = .lin
     rw [Route.routeGate_other hnh] at ha
     cases ha
     refine ⟨_, List.mem_map.mpr ⟨_, hsub _ (List.mem_singleton.mpr rfl), rfl⟩, ?_⟩
-    rw [ofRoute_toRoute _ g (Or.inr hnm) hang]
+    rw [ofRoute_toRoute _ g (by simpa using hh) hnm hang]
 
 /-- routing a circuit whose handled gates are shaped never raises -/
 theorem routeStage_total (N : Nat) (setup : Route.Setup) (hs : setup = .linear ∨ setup = .circular)
